@@ -357,7 +357,7 @@ func (h *NtfnsHandler) filterTxForImporting(tx *wire.MsgTx, blockMeta *txmgr.Blo
 
 func (h *NtfnsHandler) filterTx(tx *wire.MsgTx, blockMeta *txmgr.BlockMeta,
 	recInCurBlk map[wire.Hash]*txmgr.TxRecord,
-	readyWallets map[string]struct{}) (bool, *txmgr.TxRecord, error) {
+	readyWallets map[string]struct{}, dbtxs ...mwdb.ReadTransaction) (bool, *txmgr.TxRecord, error) {
 
 	rec, err := txmgr.NewTxRecordFromMsgTx(tx, time.Now())
 	if err != nil {
@@ -396,6 +396,11 @@ func (h *NtfnsHandler) filterTx(tx *wire.MsgTx, blockMeta *txmgr.BlockMeta,
 						exist = h.walletMgr.utxoStore.ExistCreditFromTx(rtx, &txIn.PreviousOutPoint.Hash)
 						return nil
 					})
+					if !exist && len(dbtxs) > 0 && dbtxs[0] != nil {
+						// credits added by earlier blocks of the same (uncommitted)
+						// write transaction, e.g. during a reorg
+						exist = h.walletMgr.utxoStore.ExistCreditFromTx(dbtxs[0], &txIn.PreviousOutPoint.Hash)
+					}
 					if !exist {
 						continue
 					}
@@ -570,7 +575,7 @@ func (h *NtfnsHandler) filterBlock(dbtx mwdb.DBTransaction, readyWallets map[str
 	if len(readyWallets) > 0 {
 		recInCurBlk := make(map[wire.Hash]*txmgr.TxRecord)
 		for i, tx := range block.Transactions {
-			isRelevant, rec, err := h.filterTx(tx, blockMeta, recInCurBlk, readyWallets)
+			isRelevant, rec, err := h.filterTx(tx, blockMeta, recInCurBlk, readyWallets, dbtx)
 			if err != nil {
 				logging.CPrint(logging.WARN, "Unable to filter transaction",
 					logging.LogFormat{
